@@ -149,7 +149,7 @@ def main(tier):
         ST_BARE = ["3d", "2d", "7D", "2d+1", "3d k2", "1|2", "6&3", "5 | 1", "`{% if 1 { 7 } else { 8 } %}`", "`{% func g() { return 3 }; g() %}`", "d", "2dk1", "4D优势"]
         st_bare = set()
         for v in ST_BARE:
-            for nm in ("力量", "hp", "射击:弓箭"):
+            for nm in ("力量", "hp", "射击:弓箭", "力量*2", "属性2*2.0", "力量*", "&手枪", "属性2", "'力 量'"):    # every spelling of an edit's left side
                 for binder in ("=", ":", " = "):
                     for pre in ("", "敏捷60 ", "a=1,"):
                         src = "^st" + pre + nm + binder + v
